@@ -364,17 +364,51 @@ func outcomes() []outcome {
 	}
 }
 
+// ollamaEntry renders one /api/tags entry; the digest and the numeric fields are whatever the backend says.
+func ollamaEntry(name, digest, size, details string) string {
+	js := func(x string) string { b, _ := json.Marshal(x); return string(b) }
+	return fmt.Sprintf(`{"name":%s,"model":%s,"modified_at":"2024-01-01T00:00:00Z","size":%s,"digest":%s,"details":%s}`, js(name), js(name), size, js(digest), details)
+}
+
+const okDetails = `{"family":"llama","parameter_size":"7B","quantization_level":"Q4_0"}`
+
+// outcomesOllama: listings of a provider whose entries carry digests, sizes and detail objects; the same model
+// name appears with equal, different, short and empty digests across the two endpoints and inside one listing.
+func outcomesOllama() []outcome {
+	list := func(entries ...string) func() []byte {
+		return func() []byte { return []byte(`{"models":[` + strings.Join(entries, ",") + `]}`) }
+	}
+	d1 := "sha256:" + strings.Repeat("1", 64)
+	d2 := "sha256:" + strings.Repeat("2", 64)
+	d3 := "sha256:" + strings.Repeat("3", 64)
+	d4 := "sha256:" + strings.Repeat("4", 64)
+	return []outcome{
+		{"valid-L1", 200, list(ollamaEntry("m1", d1, "1000", okDetails), ollamaEntry("m2", d2, "1000", okDetails)), false, []string{"m1", "m2"}},
+		{"valid-L2-other-digests", 200, list(ollamaEntry("m2", d3, "1000", okDetails), ollamaEntry("m3", d4, "1000", okDetails)), false, []string{"m2", "m3"}},
+		{"same-names-short-digests", 200, list(ollamaEntry("m1", "b1f2", "1000", okDetails), ollamaEntry("m2", "x", "1000", okDetails)), false, []string{"m1", "m2"}},
+		{"same-names-empty-digests", 200, list(ollamaEntry("m1", "", "1000", okDetails), ollamaEntry("m2", "", "1000", okDetails)), false, []string{"m1", "m2"}},
+		{"name-twice-different-digests", 200, list(ollamaEntry("m1", "aaaa", "1000", okDetails), ollamaEntry("m1", "bbbbbbbbbbbb", "1000", okDetails), ollamaEntry("m2", "sha256:", "1000", okDetails)), false, []string{"m1", "m2"}},
+		{"hostile-numbers-and-details", 200, list(ollamaEntry("m1", "sha256:\x00\u00e9\u202e", "-1", `null`), ollamaEntry("m3", strings.Repeat("z", 7), "9223372036854775807", `{"family":"","parameter_size":"-7B","quantization_level":"","families":null}`)), false, []string{"m1", "m3"}},
+		{"empty-object", 200, func() []byte { return []byte(`{}`) }, false, nil},
+		{"garbage", 200, func() []byte { return []byte("<html>\x00\xff not json") }, false, nil},
+		{"http-500", 500, func() []byte { return []byte(`{"error":"boom"}`) }, false, nil},
+	}
+}
+
 const okCompletion = `{"id":"x","object":"chat.completion","model":"probe","choices":[{"index":0,"message":{"role":"assistant","content":"hello"},"finish_reason":"stop"}],"usage":{"prompt_tokens":1,"completion_tokens":1,"total_tokens":2}}`
 
 func e2() {
-	outs := outcomes()
+	e2world("openai-compatible", "/v1/models", outcomes(), 1<<29)
+	e2world("ollama", "/api/tags", outcomesOllama(), 1<<28)
+}
+
+func e2world(typ, modelURL string, outs []outcome, idx int) {
 	depth := 2
 	if report.Thorough() {
 		depth = 3
 	}
 	type step struct{ ep, out int }
 	var hist []step
-	idx := 1 << 29
 	var rec func()
 	var runHist func(h []step)
 	rec = func() {
@@ -404,12 +438,13 @@ func e2() {
 	var eps []stack.EP
 	cur := []int{0, 0}
 	for i := 0; i < 2; i++ {
-		b := stack.NewBackend(fmt.Sprintf("e%d", i+1), "openai-compatible", false)
+		b := stack.NewBackend(fmt.Sprintf("e%d", i+1), typ, false)
+		b.ModelsPath = modelURL
 		i := i
 		b.ModelsBody = func() []byte { return outs[cur[i]].body() }
 		b.SetFixed(stack.OK(okCompletion))
 		bes = append(bes, b)
-		eps = append(eps, stack.EP{B: b, Priority: 100, ModelURL: "/v1/models"})
+		eps = append(eps, stack.EP{B: b, Priority: 100, ModelURL: modelURL})
 	}
 	probe := stack.NewBackend("probe", "openai-compatible", false)
 	probe.ModelsBody = func() []byte { return stack.OpenAIModels("probe-model") }
@@ -440,6 +475,11 @@ func e2() {
 	}
 	alphabet := []string{"m1", "m2", "m3", "big-model"}
 	runHist = func(h []step) {
+		var plan []string
+		for _, st := range h {
+			plan = append(plan, fmt.Sprintf("e%d:%s", st.ep+1, outs[st.out].name))
+		}
+		report.Current(map[string]any{"part": "E2", "engine": "ops", "provider": typ, "history": plan})
 		// reset: both endpoints list L1
 		ref := [2][]string{}
 		for i := 0; i < 2; i++ {
@@ -471,8 +511,8 @@ func e2() {
 				return ""
 			})
 			res.Add("evaluations", 1)
-			desc := "discovery history [" + strings.Join(hs, " ") + "]"
-			rp := map[string]any{"engine": "ops", "history": hs}
+			desc := typ + " discovery history [" + strings.Join(hs, " ") + "]"
+			rp := map[string]any{"engine": "ops", "provider": typ, "history": hs}
 			if p != "" {
 				violate("discovery-crash-or-hang", map[string]any{"part": "E2", "outcome": oc.name}, desc+": "+p, rp)
 				return
@@ -480,7 +520,7 @@ func e2() {
 			if derr == nil {
 				ref[st.ep] = oc.names
 			}
-			res.SetAdd("distinct_nontrivial", fmt.Sprintf("E2|%s|%v", strings.Join(hs, " "), derr == nil))
+			res.SetAdd("distinct_nontrivial", fmt.Sprintf("E2|%s|%s|%v", typ, strings.Join(hs, " "), derr == nil))
 			// registry views for both endpoints (after unification settles)
 			okViews := stack.Eventually(time.Second, func() bool { return viewsProblem(reg, bes, ref, alphabet) == "" })
 			if !okViews {
@@ -496,12 +536,12 @@ func e2() {
 			}
 		}
 		if len(h) == depth && idx%97 == 1 {
-			res.Sample(map[string]any{"part": "E2", "history": hs})
+			res.Sample(map[string]any{"part": "E2", "provider": typ, "history": hs})
 		}
 	}
 	rec()
 	if report.Expired() {
-		res.NotExhaustive("E2: time budget")
+		res.NotExhaustive("E2 " + typ + ": time budget")
 	}
 }
 
@@ -551,7 +591,8 @@ func main() {
 	e2()
 	res.Info["grid"] = map[string]any{"E1_targets": "every shipped listing parser, metrics extraction of every profile that enables it, TransformResponse, one streaming chunk",
 		"E1_deviations": "delete / duplicate / replace by {null, {}, [], \"\", -1, 1e999, \"\\ud800\", 300 x '['} / truncate, up to 2 (second level restricted in quick tier)", "E1_token_strings": "length <=4 (5 thorough) over 12 tokens",
-		"E2_outcomes": []string{"valid-L1", "valid-L2", "empty-body", "empty-object", "garbage", "nameless-entries", "duplicate-entries", "oversized(10MiB+)", "http-500", "stall"}, "E2_depth": map[string]int{"quick": 2, "thorough": 3}[report.Tier]}
+		"E2_outcomes": []string{"valid-L1", "valid-L2", "empty-body", "empty-object", "garbage", "nameless-entries", "duplicate-entries", "oversized(10MiB+)", "http-500", "stall"},
+		"E2_outcomes_ollama": []string{"valid-L1", "valid-L2-other-digests", "same-names-short-digests", "same-names-empty-digests", "name-twice-different-digests", "hostile-numbers-and-details", "empty-object", "garbage", "http-500"}, "E2_depth": map[string]int{"quick": 2, "thorough": 3}[report.Tier]}
 	res.Info["rule"] = "one evaluation = one hostile input fed to one entry point, or one discovery round; distinct_nontrivial = distinct first-level deviations per target and distinct discovery histories"
 	res.Assume("'all byte strings' is unbounded: this decides the <=2-deviation neighbourhood of real response shapes and all short token strings, nothing beyond (coverage-guided fuzzing is a different family)")
 	res.Finish()
